@@ -1889,16 +1889,21 @@ func execSched(r *verifsim.Run, sc *cScenario, opt cSchedOpts) *cSchedResult {
 				s.Between = func(s *verifsim.Sched) { opt.Observe(s, outDir, res) }
 			}
 			loopTask = s.Go("frame-loop", func() {
+				var conf *Config
 				for ci, cn := range sc.Conns {
 					curConn = ci
 					curCn = cn
 					if err := os.WriteFile(filepath.Join(confDir, goconfig.ConfigFileName), []byte(cn.Cfg.toml(outDir)), 0644); err != nil {
 						panic(err)
 					}
-					conf, err := ParseConfig(confDir)
-					if err != nil {
-						res.ParseErr = err
-						return
+					// as runMain: one Config object for all connections while config.toml (motion section aside) is unchanged
+					if ci == 0 || cn.Cfg.tomlSansMotion(outDir) != sc.Conns[ci-1].Cfg.tomlSansMotion(outDir) {
+						var err error
+						conf, err = ParseConfig(confDir)
+						if err != nil {
+							res.ParseErr = err
+							return
+						}
 					}
 					if ci == 0 {
 						deleteTempFiles(conf.OutputDir)
